@@ -31,6 +31,7 @@ import (
 // read off the log (Z.b order, BZ.b) and handed to the model as the schedule.
 
 var c15ErrParentless = errors.New("scripted parentless-check failure")
+var c15DeadlineHits int32
 
 type c15Batch struct {
 	id      int
@@ -381,7 +382,13 @@ func c15Run(in []string) []string {
 	// (a blocked Acquire returns after EventsSemaphoreTimeout), every accepted batch is done, and a
 	// batch cut short by the script has entered process() for every result that can be consumed.
 	// Batches queued behind a cut-short batch never run (single goroutine script order only).
-	deadline := time.Now().Add(10 * time.Second)
+	// a run that never becomes quiescent (a mutation that hangs the inserter, an Acquire without
+	// C30's fix) is observed as it is after a deadline; after a few such runs the deadline shrinks
+	wait := 2 * time.Second
+	if atomic.LoadInt32(&c15DeadlineHits) >= 3 {
+		wait = 100 * time.Millisecond
+	}
+	deadline := time.Now().Add(wait)
 	for {
 		mu.Lock()
 		pending := enqFinished != sc.g
@@ -405,6 +412,7 @@ func c15Run(in []string) []string {
 		}
 		if time.Now().After(deadline) {
 			vu.Stat("quiescence_by_deadline")
+			atomic.AddInt32(&c15DeadlineHits, 1)
 			break
 		}
 		time.Sleep(200 * time.Microsecond)
